@@ -197,6 +197,9 @@ def run(tier, seed):
         jobs.append(('range', W.POOL_QUICK[:3], 'Stored', ('-',), seed, 5, True))
         jobs.append(('range', [2], 'NoData', ('-',), seed, 5, False,
                      [[('A1', 5), ('A2', True), ('A3', None)], [('A3', 'a'), ('A1', 0)]]))
+        # a range assigned as a whole while C1 reads one of its cells directly
+        jobs.append(('trimex', [2], 'NoData', ('-',), seed, 5, False,
+                     [[('A1', 5), ('B1', True)], [('B1', 'a'), ('A1', 0)]]))
     else:
         for name in W.WORKBOOKS:
             for src in ('NoData', 'Stored', 'Loaded'):
@@ -211,6 +214,8 @@ def run(tier, seed):
         jobs.append(('range', [2, None], 'Stored', ('-',), seed, 5, False,
                      [[('A1', 5), ('A2', True), ('A3', None)], [('A3', 'a'), ('A1', 0)],
                       [('A1', 2), ('A2', 2), ('A3', 2)]]))
+        jobs.append(('trimex', [2, None], 'Stored', ('-',), seed, 5, False,
+                     [[('A1', 5), ('B1', True)], [('B1', 'a'), ('A1', 0)], [('A1', 2), ('B1', 2)]]))
         jobs.append(('grid', [2], 'NoData', ('-',), seed, 5, False,
                      [[('A1', 5), ('B1', None), ('A2', 'a')], [('A2', 0), ('A1', True)]]))
         for name in ('chain', 'range', 'alias', 'cse', 'trimex'):
